@@ -94,3 +94,19 @@ pub fn extend_from_slice_nogrow<T: Clone, A: core::alloc::Allocator>(v: &mut Vec
         i += 1;
     }
 }
+
+/// `Vec::append_elements` (the private worker behind `extend_from_slice` and
+/// `Extend<&T>`), without the growth path - see `extend_from_slice_nogrow`.
+#[cfg(kani)]
+pub unsafe fn append_elements_nogrow<T, A: core::alloc::Allocator>(v: &mut Vec<T, A>, other: *const [T]) {
+    let count = other.len();
+    assert!(v.capacity() - v.len() >= count, "harness output buffer too small");
+    let src = other as *const T;
+    let mut i = 0;
+    while i < count {
+        let l = v.len();
+        core::ptr::write(v.as_mut_ptr().add(l), core::ptr::read(src.add(i)));
+        v.set_len(l + 1);
+        i += 1;
+    }
+}
